@@ -81,7 +81,7 @@ func c17a(c *Ctx) {
 		if len(rs) < 1 {
 			continue
 		}
-		lit, ok := ast.Unparen(rs[0]).(*ast.FuncLit)
+		lit, ok := ast.Unparen(f.Resolve(rs[0]).E).(*ast.FuncLit)
 		if !ok {
 			continue
 		}
@@ -108,6 +108,8 @@ func c17a(c *Ctx) {
 	isLenLP := func(e ast.Expr) bool { return isLenOfField(info, e, "lowPriority") }
 	lowP := f.paramObj("lowPriority")
 	infeasible := nonEmptyRangeExits(f, "lowPriority")
+	// eviction delegated to a helper (validated by C17.b): its flag is "some low-priority entry was pending"
+	eh := findEvictHelper(f)
 	for _, psPos := range []bool{true, false} {
 		for _, nrel := range []int{relLT, relEQ, relGT} {
 			for _, low := range []bool{true, false} {
@@ -144,6 +146,12 @@ func c17a(c *Ctx) {
 								return True
 							}
 							return False
+						}
+						if eh != nil && objOf(info, e) == eh.OkObj && eh.OkObj != nil {
+							if lpEmpty {
+								return False
+							}
+							return True
 						}
 						return Unknown
 					}
@@ -203,6 +211,10 @@ func c17b(c *Ctx) {
 	})
 	inst := f.Name + " eviction loop"
 	if loop == nil {
+		if eh := findEvictHelper(f); eh != nil {
+			c17bHelper(c, f, eh, inst)
+			return
+		}
 		c.Bad(inst, f.Pos(f.Decl), "no loop over the pending low-priority entries: a high-priority submission cannot evict")
 		return
 	}
@@ -918,4 +930,50 @@ func c17j(c *Ctx) {
 	if n == 0 {
 		c.Unk("hooks", "no test hook variables found")
 	}
+}
+
+// c17bHelper: EVICT-ONE when the loop lives in a helper: the helper's body is
+// validated, and in the owner the new leaf is stored at the slot the helper
+// returned, only on the edge where the helper reported an eviction.
+func c17bHelper(c *Ctx, f *Func, eh *evictHelper, inst string) {
+	c.touch(eh.H)
+	info := f.Info()
+	g := f.Graph()
+	problems, sites := eh.validate()
+	leaf := f.paramObj("leaf")
+	var store []Site
+	for _, st := range f.StoresTo(c.P.fieldVar(pkgCtlog, "pool", "pendingLeaves")) {
+		ix, ok := ast.Unparen(st.Lhs).(*ast.IndexExpr)
+		if ok && st.Rhs != nil && objOf(info, st.Rhs) == leaf && objOf(info, ix.Index) == eh.SlotObj && eh.SlotObj != nil {
+			store = append(store, st.Site)
+		}
+	}
+	okT, _ := eh.okEdges(f)
+	switch {
+	case len(store) == 0:
+		problems = append(problems, "the new leaf is not stored at the slot the eviction helper returned")
+	case len(okT) == 0:
+		problems = append(problems, "the helper's eviction flag is not tested")
+	default:
+		if pt, _ := g.Reach(eh.Call.After(), Cut{Edges: okT}, atAnySite(store)); pt != nil {
+			problems = append(problems, "the slot is overwritten although nothing was evicted")
+		}
+		// between the helper's result and the store the slot variable is not reassigned
+		for _, d := range f.Defs(eh.SlotObj) {
+			if d.Node != eh.Call.Node {
+				if ds := f.Find(func(n ast.Node) bool { return n == d.Node }); len(ds) == 1 {
+					if pt, _ := g.Reach(eh.Call.After(), Cut{Stop: func(p Point, _ ast.Node) bool { return p == ds[0].P }}, atAnySite(store)); pt == nil {
+						problems = append(problems, "the slot variable is reassigned between the eviction and the store")
+					}
+				}
+			}
+		}
+		sites = append(sites, store[0].Pos())
+	}
+	if len(problems) > 0 {
+		c.Bad(inst, eh.Call.Pos(), "eviction through "+eh.H.Name+": "+strings.Join(problems, "; "))
+		return
+	}
+	c.add(Result{Instance: inst, Verdict: Discharged, Evals: 6, Sites: sites,
+		Detail: "helper " + eh.H.Name + ": single iteration, cancel(), delete(lowPriority, k), return k, true; owner: pendingLeaves[slot] = leaf on the ok edge", Witnesses: f.WitEdges(okT)})
 }
